@@ -131,6 +131,7 @@ type Run struct {
 	tasks  map[uintptr]*Task
 	all    []*Task
 	holder atomic.Pointer[Task]
+	barrierT *Task // holder waiting for the goroutines it woke to reach their parking points
 	last   *Task
 	root   *Task
 	stop   atomic.Bool
@@ -342,6 +343,27 @@ func (r *Run) park(t *Task, guard func() bool, kind, site string) {
 	}
 }
 
+// barrier lets every goroutine the holder has just woken (channel
+// operations wake peers through the Go runtime) run to its next parking
+// point before the holder continues.  It is not a scheduling point: the
+// scheduler resumes the same task without consulting the tape.
+func (r *Run) barrier(t *Task) {
+	if r.holder.Load() != t || r.stop.Load() {
+		return
+	}
+	r.mu.Lock()
+	t.state = stParked
+	t.guard = func() bool { return false }
+	t.kind = "barrier"
+	r.barrierT = t
+	r.holder.Store(nil)
+	r.mu.Unlock()
+	<-t.resume
+	if r.stop.Load() {
+		select {}
+	}
+}
+
 // yield is a scheduling point of the given class.
 func (r *Run) yield(t *Task, class int, site string) {
 	if t.noYield > 0 {
@@ -510,6 +532,15 @@ func (r *Run) loop() {
 		if len(r.failures) > 0 || r.root.state == stDone {
 			r.mu.Unlock()
 			return
+		}
+		if b := r.barrierT; b != nil {
+			r.barrierT = nil
+			b.state = stRunning
+			b.guard = nil
+			r.holder.Store(b)
+			r.mu.Unlock()
+			b.resume <- struct{}{}
+			continue
 		}
 		now := time.Now()
 		if r.fireTimers(now) {
